@@ -67,6 +67,18 @@ func (m *Mon) stateC01(sc *StepCtx, s *Snap) {
 		m.failState(sc, "C01", "backing", dir+"@"+stepClass(sc),
 			"escrow balance %s != pending fees %s + earnings %s (after %s)", escrow, pend, earned, sc.Step.Desc)
 	}
+	// "requests still awaiting a response" are marked twice in the store (by ID and by binding);
+	// the equation must hold whichever of the two markers is taken as the definition
+	pendB := sdk.ZeroInt()
+	for id := range s.ActiveBind {
+		if r, ok := s.Requests[id]; ok {
+			pendB = pendB.Add(coinsAmt(r.ServiceFee))
+		}
+	}
+	if !pendB.Equal(pend) && !escrow.Equal(pendB.Add(earned)) {
+		m.failState(sc, "C01", "backing", "by-binding-markers@"+stepClass(sc),
+			"escrow balance %s != fees of the requests marked pending for their binding %s + earnings %s (the by-ID markers give %s; after %s)", escrow, pendB, earned, pend, sc.Step.Desc)
+	}
 }
 
 func sgn(x sdk.Int) string {
